@@ -150,7 +150,18 @@ def gen_sess_case(rng, case_id):
                 i = rng.choice(sorted(alive))
                 alive.discard(i)
                 member = {m for m in member if m[0] != i}
-                ops.append(("exit", i))
+                if rng.random() < 0.5:
+                    ops.append(("exit", i))
+                else:
+                    # the actor is gone from the registry, the session has not yet handled its
+                    # lifecycle event, and messages from the peer that were in flight arrive first
+                    ops.append(("hexit", i))
+                    for _ in range(rng.choice([1, 1, 2, 3])):
+                        j = i if rng.random() < 0.8 else rng.choice(list(range(nprobe)) + [99])
+                        if rng.random() < 0.5:
+                            ops.append(("rcast", j, rng.choice([1, 2, 3, 4]), rnd_bytes(rng)))
+                        else:
+                            ops.append(("rcall", j, rng.randrange(1, 50), rng.choice([1, 2, 3, 4, 6]), rnd_bytes(rng)))
         elif r < 0.36:
             i = rng.choice(list(range(nprobe)) + [99])
             ops.append(("rcast", i, rng.choice([1, 2, 3, 4]), rnd_bytes(rng)))
@@ -210,7 +221,7 @@ def sess_model(c):
             ops.append(f"UJoin {op[1]} {op[2]}")
         elif k == "leave":
             ops.append(f"ULeave {op[1]} {op[2]}")
-        elif k == "exit":
+        elif k in ("exit", "hexit"):
             ops.append(f"UExit {op[1]}")
         elif k == "rcast":
             ops.append(f"URecvF (FMsg {op[1]} 0 (mkMsg false {op[2]} {bl(op[3])}) 0)")
@@ -237,14 +248,39 @@ def sess_model(c):
     return f"urun 4 {xs} {ys} (init 0 0) [" + "; ".join(ops) + "]"
 
 
-def canon_u(t):
-    """sort the per-operation wire frames (HashSet iteration order on the implementation side)"""
+def canon_u(t, ops=None):
+    """Sort the per-operation wire frames (HashSet iteration order on the implementation side).
+    A held exit (`hexit`: the actor is gone, the session has not handled the lifecycle event yet) is
+    merged with the operations up to and including the next one that lets the session handle its
+    events: the model's exit is atomic, the real Terminate frame is written when the event is handled."""
     out = []
-    for u in t:
-        if isinstance(u, tuple) and u[0] == "mkU":
-            out.append(("mkU", u[1], sorted(u[2], key=show_term), u[3], u[4], u[5]))
-        else:
+    acc = None
+    for j, u in enumerate(t):
+        if not (isinstance(u, tuple) and u[0] == "mkU"):
             out.append(u)
+            continue
+        wire, dlv, res = list(u[2]), list(u[3]), list(u[4])
+        if acc is not None:
+            wire, dlv, res = acc[0] + wire, acc[1] + dlv, acc[2] + res
+            acc = None
+        if ops is not None and j < len(ops) and ops[j][0] == "hexit":
+            acc = (wire, dlv, res)
+            continue
+        out.append(("mkU", u[1], sorted(wire, key=show_term), dlv, res, u[5], u[6]))
+    return out
+
+
+def load_sess_corpus():
+    d = os.path.join(ROOT, "corpus", "C20")
+    out = []
+    p = os.path.join(d, "sess.jsonl")
+    if os.path.exists(p):
+        for l in open(p):
+            l = l.strip()
+            if l and not l.startswith("#"):
+                c = json.loads(l)
+                c["ops"] = [tuple(o) for o in c["ops"]]
+                out.append(c)
     return out
 
 
@@ -457,12 +493,12 @@ def gen_cut_sweep(rng, quick):
 
 
 def load_corpus():
-    """corpus/C20/*.jsonl: fixed regression scenarios {kind, line, strict, expect, quiescent}"""
+    """corpus/C20/net*.jsonl: fixed regression scenarios {kind, line, strict, expect, quiescent}"""
     d = os.path.join(ROOT, "corpus", "C20")
     out = []
     if os.path.isdir(d):
         for f in sorted(os.listdir(d)):
-            if f.endswith(".jsonl"):
+            if f.startswith("net") and f.endswith(".jsonl"):
                 for l in open(os.path.join(d, f)):
                     l = l.strip()
                     if l and not l.startswith("#"):
@@ -541,14 +577,30 @@ def run(chk):
     # ---------------- E3b: the session-side handlers ----------------
     n_ss = (150 if quick else 2500) * factor
     scases = [gen_sess_case(rng, i + 1) for i in range(n_ss)]
+    for k, c in enumerate(load_sess_corpus()):
+        c["id"] = 100000 + k
+        scases.insert(0, c)
+    n_ss = len(scases)
     try:
         impl = run_harness(build, "eng_remote", [sess_line(c) for c in scases], shards=4)
     except RuntimeError as e:
         return infrastructure_failure(chk.prop, "session engine did not complete: " + str(e)[-1500:])
-    model = coq_eval(TAG + "s", IMPORTS, [sess_model(c) for c in scases])
+    sexprs = [sess_model(c) for c in scases]
+    for c, out in zip(scases, impl):
+        exited = sorted({op[1] for op in c["ops"] if op[0] in ("exit", "hexit")})
+        sexprs.append(f"check_C20_sess [{'; '.join(map(str, exited))}] {out}")
+    model = coq_eval(TAG + "s", IMPORTS, sexprs)
     for i, c in enumerate(scases):
-        mv = canon_u(parse_term(model[i]))
-        iv = canon_u(parse_term(impl[i]))
+        mv = canon_u(parse_term(model[i]), c["ops"])
+        iv = canon_u(parse_term(impl[i]), c["ops"])
+        if model[n_ss + i] != "true":
+            desc = json.dumps({"kind": "sess", "harness_line": sess_line(c),
+                               "clause": "every announced local actor that exited is reported with a Terminate frame",
+                               "impl": impl[i]}, indent=1)
+            chk.violation("session: an announced actor exited and the peer was never told (no Terminate frame): "
+                          "its remote reference never stops",
+                          "C20 oracle check_C20_sess rejects what the real NodeSession handlers wrote\n" + desc)
+            continue
         chk.coverage["evaluations"] += 1
         for op in c["ops"]:
             chk.count("sess.op." + op[0])
